@@ -270,6 +270,21 @@ def generate(ctx):
               b'$.a == 5.', b'$ == .5', b'$ == 007', b'$:"a"', b"$.'a'", b'-5', b'- 5', b'--5', b'-.5 ', b'$ . a', b'null.a', b'nullx.a', b'$?(@.a)',
               b'$ == -0', b'$ == 18446744073709551616', b'$ == -9223372036854775809', b'$.a\\u0041 == 1', b'$ [ 0 , LAST - 1 TO last ] . *']:
         ctx.add('parse_json_path %s' % gen.hexarg(t), kind='grammar-edge')
+    # the texts of the soundness statements (Props/C09.v: C09_documented_rejections_are_outside_the_grammar, C09_more_rejections_..,
+    # C09_grammar_is_ambiguous_on_unrooted_forms) and the places where an ordered choice of the parser decides: the integer
+    # readers before the float reader, `inf` before `infinity`, `last - n` declining and `last` alone being read, the item after
+    # a separator failing (the separator is then not consumed), predicate before rooted path before unrooted path
+    for t in [b'$.[', b'$X', b'$.', b'$.prop.', b'$.prop+.', b'$..', b'$.prop..', b'$.foo bar', b'$[0, 1, 2 4]', b"$['1','2',]", b"$['1', ,'3']",
+              b"$['aaa'}'bbb']", b'@ > 10', b'$[1,]', b'$[,1]', b'$[last - 99999999999]', b'$[last - 99999999999 to 1]', b'$ == infinityx', b'$ == infinity',
+              b'$ == INFINITY', b'$ == infx', b'$ == nanx', b'$?(@.a)', b'$ == 1 &&', b'$ == 1 ||', b'$.a == (1)', b'$ == exists($.a)', b'exists($.a) == 1',
+              b'$[1 to]', b'$[to 1]', b'$?()', b'$ == 1 2', b'( $.a == 1', b'( $.a == 1 )', b'(( $.a == 1 ))', b'$?(exists(5))', b'$?(exists($))',
+              b'exists ( @ )', b'exists($ .a ? ( @ == 1 ) )', b'- $.a == 1', b'-$.a', b'- $.a', b' - $.a', b'+ 5', b'$ == $ == $', b'$ == 1 && $ == 2 || $ == 3 && $ == 4',
+              b'$ == +9223372036854775807', b'$ == +9223372036854775808', b'$ == -9223372036854775808', b'$ == 18446744073709551615', b'$ == 18446744073709551615.',
+              b'$ == 1.e2', b'$ == -.5e1', b'$ == +.5', b'$ == -.', b'$ == .', b'$ == 5e', b'$ == 5e+', b'$ == 00', b'$ == -00', b'$ == 1 .a', b'$ + 1', b'$.a % $.b',
+              b'.a', b':a', b'a b', b' a  .b ', b'a.b ?(@ == 1)', b'a\u0041', b'[0]', b'?(@ == 1)', b'.*', b'$ $', b'$@', b'$?(@ == @)', b'$?(@ == $)', b'$ ?( $ == 1 ) ?( @ == 2 )',
+              b'$[0 to 1 to 2]', b'$[last last]', b'$[last + ]', b'$[ last - 1 , last + 1 , +1 to -1 ]', b'$ == "a" && "b" == $', b'$ == null', b'$ == nullx',
+              b'null == null', b'true', b'true == false', b'nan.a', b'inf.a', b'infinity.a', b'e.a', b'exists.a', b'exists', b'5.* .5', b'5 .* .5']:
+        ctx.add('parse_json_path %s' % gen.hexarg(t), kind='grammar-sound')
 
 
 def normalise_outcome(case, o):
